@@ -21,7 +21,10 @@ KINDS = ["nat", "int", "float"]
 # (expression, least numeric kind it has, exact: True if acceptance must be equivalent to widening)
 FORMS = [("vn", 0, True), ("vi", 1, True), ("vf", 2, True), ("1", 0, False), ("-1", 1, False), ("1.5", 2, False), ("comptime(1)", 0, False),
          ("comptime(-1)", 1, False), ("comptime(2.5)", 2, False), ("comptime(1.0)", 2, False), ("comptime(2 ** 63)", 0, False), ("(vi + 1)", 1, True), ("(vn + vn)", 0, True),
-         ("(vf * vi)", 2, True), ("(vn + vi)", 1, True)]
+         ("(vf * vi)", 2, True), ("(vn + vi)", 1, True),
+         # results of calls (the expected type reaches the call through check_call, not through the variable / operator paths)
+         ("get_nat()", 0, False), ("get_int()", 1, False), ("get_float()", 2, False), ("ident(vi)", 1, False), ("ident(vf)", 2, False), ("abs(vi)", 1, False),
+         ("abs(vf)", 2, False), ("(get_int(), 1)[0]", 1, False)]
 POS = ["assign", "argument", "return", "operand"]
 CASES = [(e, f, p) for e in range(3) for f in range(len(FORMS)) for p in range(len(POS))]
 
@@ -40,8 +43,10 @@ def _prog(ci, e, f, p):
 
 with NoTracing():
     _src = ["from guppylang import guppy\nfrom guppylang.std.builtins import nat, comptime\n\n"]
+    _src.append("T = guppy.type_var('T')\n\n@guppy.declare\ndef ident(x: T) -> T: ...\n\n")
     for k in KINDS:
         _src.append(f"@guppy.declare\ndef takes_{k}(x: {k}) -> None: ...\n\n")
+        _src.append(f"@guppy.declare\ndef get_{k}() -> {k}: ...\n\n")
     for ci, (e, f, p) in enumerate(CASES):
         _src.append(_prog(ci, e, f, p))
     _dir = os.environ.get("VERIF_TWIN_DIR") or "/var/tmp"
